@@ -1,5 +1,6 @@
 import PPLV.Interval.Model
 import PPLV.Interval.Spec
+import PPLV.Interval.Linearize
 /-!
 native driver `pplv_c12`.
 
@@ -274,11 +275,273 @@ def processLF (d3 : Bool) (id : String) (t : Ty) (ops is js rs : String) : List 
       m ++ e
   | _, _ => [mism id "parse" "" "unparsable linear form"]
 
+
+/-! ## linearization events (`harness/c12_linearize.cc`) -/
+
+/-- an analysed format (what the concrete machine computes in) and an analyser type -/
+structure LinCfg where
+  ty : Ty                 -- analyser interval type
+  prec : Nat              -- analysed format: significand bits (with the hidden bit)
+  emin : Int
+  emax : Int
+  fm : FFormat
+
+def linCfgOf (s : String) : Option LinCfg :=
+  match s.toList with
+  | [a, t] =>
+    match tyOf (String.singleton t) with
+    | none => none
+    | some ty =>
+      let denormMin : Rat :=
+        if t == 'F' then Rounding.pow2 (-149) else if t == 'D' then Rounding.pow2 (-1074) else Rounding.pow2 (-16445)
+      let mk (mant : Nat) (bias : Int) (emin emax : Int) : LinCfg :=
+        let eps := Rounding.pow2 (-(mant : Int))
+        let om := Rounding.pow2 ((1 - bias) - (mant : Int))
+        ⟨ty, mant + 1, emin, emax, ⟨eps, if om < denormMin then denormMin else om⟩⟩
+      if a == 'S' then some (mk 23 127 (-126) 127)
+      else if a == 'D' then some (mk 52 1023 (-1022) 1023)
+      else none
+  | _ => none
+
+/-- rounding of an exact result to the analysed format; modes 0 nearest-even, 1 up, 2 down, 3 zero;
+`none` on overflow -/
+def roundMode (c : LinCfg) (mode : Nat) (q : Rat) : Option Rat :=
+  let R := Rounding.float c.prec c.emin c.emax
+  match R.down q, R.up q with
+  | fin d, fin u =>
+    if mode == 1 then some u
+    else if mode == 2 then some d
+    else if mode == 3 then (if q < 0 then some u else some d)
+    else
+      let dd := q - d
+      let du := u - q
+      if dd < du then some d
+      else if du < dd then some u
+      else
+        let ul := Rounding.ulp c.prec c.emin q
+        if ((d / ul).num % 2 == 0) then some d else some u
+  | _, _ => none
+
+/-- expression token parser -/
+partial def parseExpr (cs : List Char) : Option (FExpr × Rat × List Char) :=
+  -- the `Rat` is unused for non-constants; constants return their literal value separately below
+  let takeUntil (stop : Char → Bool) (l : List Char) : List Char × List Char := l.span (fun c => !stop c)
+  match cs with
+  | 'v' :: rest =>
+    let (ds, rest) := takeUntil (fun c => !c.isDigit) rest
+    (String.ofList ds).toNat?.map (fun i => (FExpr.var i, 0, rest))
+  | 'c' :: b0 :: rest =>
+    let (los, rest) := takeUntil (· == ',') rest
+    match rest with
+    | ',' :: rest =>
+      let (his, rest) := takeUntil (fun c => c == ']' || c == ')') rest
+      match rest with
+      | b1 :: '@' :: rest =>
+        let (qs, rest) := takeUntil (fun c => c == ',' || c == ')') rest
+        match parseExt (String.ofList los), parseExt (String.ofList his), parseRat (String.ofList qs) with
+        | some l, some u, some q => some (FExpr.const ⟨⟨l, b0 == '('⟩, ⟨u, b1 == ')'⟩⟩ q, q, rest)
+        | _, _, _ => none
+      | _ => none
+    | _ => none
+  | 'n' :: '(' :: rest =>
+    match parseExpr rest with
+    | some (e, _, ')' :: rest) => some (FExpr.neg e, 0, rest)
+    | _ => none
+  | op :: '(' :: rest =>
+    match parseExpr rest with
+    | some (e1, _, ',' :: rest) =>
+      match parseExpr rest with
+      | some (e2, _, ')' :: rest) =>
+        if op == '+' then some (FExpr.add e1 e2, 0, rest)
+        else if op == '-' then some (FExpr.sub e1 e2, 0, rest)
+        else if op == '*' then some (FExpr.mul e1 e2, 0, rest)
+        else if op == '/' then some (FExpr.div e1 e2, 0, rest)
+        else none
+      | _ => none
+    | _ => none
+  | _ => none
+
+/-- concrete value on the analysed machine (`none`: overflow or division by zero: not judged);
+a literal `q` is converted with the current rounding mode -/
+def cevalOpt (c : LinCfg) (mode : Nat) (rho : Nat → Rat) : FExpr → Option Rat
+  | .const _ q => roundMode c mode q
+  | .var i => some (rho i)
+  | .neg e => (cevalOpt c mode rho e).map (fun v => -v)
+  | .add e1 e2 => do
+    let a ← cevalOpt c mode rho e1
+    let b ← cevalOpt c mode rho e2
+    roundMode c mode (a + b)
+  | .sub e1 e2 => do
+    let a ← cevalOpt c mode rho e1
+    let b ← cevalOpt c mode rho e2
+    roundMode c mode (a - b)
+  | .mul e1 e2 => do
+    let a ← cevalOpt c mode rho e1
+    let b ← cevalOpt c mode rho e2
+    roundMode c mode (a * b)
+  | .div e1 e2 => do
+    let a ← cevalOpt c mode rho e1
+    let b ← cevalOpt c mode rho e2
+    if b == 0 then none else roundMode c mode (a / b)
+
+/-- the set of values of an interval linear form on a concrete store (exact) -/
+def evalFormSI (f : List Iv) (rho : Nat → Rat) : Spec.SI :=
+  match f with
+  | [] => Spec.ofIv (Iv.point 0)
+  | i0 :: cs =>
+    let rec go (l : List Iv) (k : Nat) (acc : Spec.SI) : Spec.SI :=
+      match l with
+      | [] => acc
+      | c :: l => go l (k + 1) (Spec.add acc (Spec.mul (Spec.ofIv c) (Spec.ofIv (Iv.point (rho k)))))
+    go cs 0 (Spec.ofIv i0)
+
+/-- values of the analysed format inside an analyser interval -/
+def storeSamples (c : LinCfg) (salt : Nat) (b : Iv) : List Rat :=
+  let s := Spec.ofIv b
+  let R := Rounding.float c.prec c.emin c.emax
+  match b.lo.value, b.hi.value with
+  | fin l, fin u =>
+    let w := u - l
+    let r1 : Rat := ((salt * 7919 + 13) % 1009 : Nat) / 1009
+    let r2 : Rat := ((salt * 104729 + 71) % 997 : Nat) / 997
+    let cand : List Rat := [l, u, (l + u) / 2, l + w * r1, l + w * r2, 0, l + w / 1024, u - w / 1024]
+    let rounded := cand.flatMap fun q =>
+      (match R.down q with | fin d => [d] | _ => []) ++ (match R.up q with | fin d => [d] | _ => [])
+    (rounded.filter (Spec.mem s)).eraseDups
+  | _, _ => []
+
+def listGet (l : List Rat) (i : Nat) : Rat := l.getD i 0
+
+/-- a few concrete stores: the diagonal selections and pseudo-random mixes -/
+def concreteStores (c : LinCfg) (salt : Nat) (box : List Iv) : List (List Rat) :=
+  let per := (List.range box.length).map fun k => storeSamples c (salt + 31 * k) (box.getD k Iv.empty)
+  if per.any (·.isEmpty) then []
+  else
+    let pick (sel : Nat → Nat) : List Rat := (List.range per.length).map fun k =>
+      let vs := per.getD k []
+      vs.getD (sel k % vs.length) 0
+    ((List.range 14).map fun j => pick (fun k => j + (salt + 3) * k * (j % 3)) ).eraseDups
+
+/-- a few concrete coefficient vectors (members of each interval coefficient) -/
+def instancesOf (f : List Iv) : List (List Rat) :=
+  let ms := f.map fun x => samples (Spec.ofIv x)
+  if ms.any (·.isEmpty) then []
+  else (List.range 4).map fun j => ms.map fun l => l.getD (j % l.length) 0
+
+def natOfId (id : String) : Nat := (id.toList.filter Char.isDigit).foldl (fun a c => (a * 10 + (c.toNat - 48)) % 1000003) 0
+
+def processLin (id cfgs ops as bs rs : String) : List String :=
+  match linCfgOf cfgs with
+  | none => [mism id "parse" "" "unknown configuration"]
+  | some c =>
+    let t := c.ty
+    let p := t.pol
+    let R := t.rnd
+    let salt := natOfId id
+    if ops == "lin" then
+      match parseExpr as.toList, bs.splitOn "|" with
+      | some (e, _, []), [boxs, stores] =>
+        match parseLF t boxs with
+        | none => [mism id "parse" "" "bad box"]
+        | some box =>
+          let lfs : Option (Nat × List Iv) :=
+            if stores == "-" then none
+            else match stores.splitOn "=" with
+              | [i, f] => match i.toNat?, parseLF t f with
+                | some i, some f => some (i, f)
+                | _, _ => none
+              | _ => none
+          let lfStore : Nat → Option (List Iv) := fun i => match lfs with
+            | some (j, f) => if i == j then some f else none
+            | none => none
+          let model := linearize false p R c.fm box lfStore e
+          let ms := match model with | some f => showLF t f | none => "F"
+          let m := if ms == rs then [] else [mism id "model" "" ("model=" ++ ms ++ " real=" ++ rs)]
+          -- verdict on the REAL form
+          let v :=
+            if rs == "F" then []
+            else match parseLF t rs with
+              | none => [mism id "parse" "" "bad result form"]
+              | some rf =>
+                let bad := (concreteStores c salt box).flatMap fun st =>
+                  let rho : Nat → Rat := fun k => st.getD k 0
+                  (List.range 4).filterMap fun mode =>
+                    match cevalOpt c mode rho e with
+                    | none => none
+                    | some v => if Spec.mem (evalFormSI rf rho) v then none else some (st, mode, v)
+                match bad with
+                | [] => []
+                | (st, mode, v) :: _ =>
+                  [mism id "enclose" "" ("store=" ++ ";".intercalate (st.map showRat) ++ " mode=" ++ toString mode
+                    ++ " concrete value " ++ showRat v ++ " not in the linear form evaluated on the store ("
+                    ++ toString bad.length ++ " cases)")]
+          m ++ v
+      | _, _ => [mism id "parse" "" "bad lin event"]
+    else if ops == "relerr" then
+      match parseLF t as, parseLF t rs with
+      | some f, some rf =>
+        let model := relativeError false p R c.fm.eps f
+        let m := if showLF t model == rs then [] else [mism id "model" "" ("model=" ++ showLF t model ++ " real=" ++ rs)]
+        -- verdict: for instances a of f on a store and |t| <= eps*|a| : t in eval(real, store)
+        let n := f.length - 1
+        let stores : List (List Rat) := [List.replicate n 1, List.replicate n (-3), (List.range n).map (fun k => ((k : Nat) : Rat) - 1/2),
+          (List.range n).map (fun k => if (k + salt) % 2 == 0 then (7 : Rat) / 3 else -1000)]
+        let insts : List (List Rat) :=
+          instancesOf f
+        let bad := stores.flatMap fun st =>
+          let rho : Nat → Rat := fun k => st.getD k 0
+          insts.flatMap fun inst =>
+            let a := lfEval inst rho
+            let mag := ratAbs a * c.fm.eps
+            ([mag, -mag, mag / 3] : List Rat).filterMap fun tt =>
+              if Spec.mem (evalFormSI rf rho) tt then none else some (st, a, tt)
+        let v := match bad with
+          | [] => []
+          | (st, a, tt) :: _ => [mism id "enclose" "" ("store=" ++ ";".intercalate (st.map showRat) ++ " instance value " ++ showRat a
+              ++ ": error " ++ showRat tt ++ " not in the relative-error form evaluated on the store")]
+        m ++ v
+      | _, _ => [mism id "parse" "" "bad relerr event"]
+    else if ops == "intervalize" then
+      match parseLF t as, parseLF t bs with
+      | some f, some box =>
+        let model := intervalize false p R box f
+        let ms := match model with | some x => showIv t x | none => "F"
+        let m := if ms == rs then [] else [mism id "model" "" ("model=" ++ ms ++ " real=" ++ rs)]
+        let v := match parseVal rs with
+          | some rv =>
+            let rsi := valToSI rv
+            let insts : List (List Rat) :=
+              instancesOf f
+            let bad := (concreteStores c salt box).flatMap fun st =>
+              let rho : Nat → Rat := fun k => st.getD k 0
+              insts.filterMap fun inst =>
+                let a := lfEval inst rho
+                if rs == "F" || Spec.mem rsi a then none else some (st, a)
+            match bad with
+            | [] => []
+            | (st, a) :: _ => [mism id "enclose" "" ("store=" ++ ";".intercalate (st.map showRat) ++ " value " ++ showRat a ++ " not in " ++ rs)]
+          | none => [mism id "parse" "" "bad interval"]
+        m ++ v
+      | _, _ => [mism id "parse" "" "bad intervalize event"]
+    else if ops == "ceval" then
+      match parseExpr as.toList with
+      | some (e, _, []) =>
+        let st := (bs.splitOn ";").filterMap parseRat
+        let rho : Nat → Rat := fun k => st.getD k 0
+        let sim := (List.range 4).map fun mode => match cevalOpt c mode rho e with | some v => showRat v | none => "?"
+        let simS := ";".intercalate sim
+        if simS == rs then [] else [mism id "fpmodel" "" ("simulated=" ++ simS ++ " hardware=" ++ rs)]
+      | _ => [mism id "parse" "" "bad ceval event"]
+    else [mism id "parse" "" ("unknown op " ++ ops)]
+
 def process (d3 d12 : Bool) (line : String) : List String :=
   let toks := (line.trimAscii.toString.splitOn " ").filter (· != "")
   match toks with
   | [id, tys, ops, is, js, rs, oks] =>
-    if ops.startsWith "lf:" then
+    if tys.length == 2 then
+      let r := processLin id tys ops is js rs
+      if r.isEmpty then ["ok " ++ id] else r
+    else if ops.startsWith "lf:" then
       match tyOf tys with
       | some t =>
         let r := processLF d3 id t ops is js rs
